@@ -1,4 +1,151 @@
 """C02 -- partition-improving algorithms keep a valid partition valid."""
+import os, re, struct, sys
+sys.path.insert(0, os.path.dirname(os.path.dirname(os.path.abspath(__file__))))
+from translate_lib import read, fn_body, Fail, HEADER, coq_bool
+
+
+def _bits(x):
+    return struct.unpack("<Q", struct.pack("<d", x))[0]
+
+
+def _norm(t):
+    """comments removed, runs of white space collapsed"""
+    t = re.sub(r"//[^\n]*", "", t)
+    return re.sub(r"\s+", " ", t)
+
+
+def _need(text, frag, what):
+    if _norm(frag) not in text:
+        raise Fail("k_means: fragment not recognised: " + what)
+
+
+def _op(text, pat, what):
+    m = re.search(pat, text)
+    if not m:
+        raise Fail("k_means: guard not recognised: " + what)
+    return m.group(1)
+
+
+# ------------------------------------------------- k-means: literals, operators and guard shapes of
+# src/algorithms/k_means.rs and of the helpers of src/geometry.rs it calls (Model/KMeans.v mirrors them)
+def gen_kmeans():
+    out = HEADER.format(src="src/algorithms/k_means.rs, src/geometry.rs")
+    out += "From Coq Require Import NArith List.\nImport ListNotations.\n"
+    km = read("src/algorithms/k_means.rs")
+    geo = read("src/geometry.rs")
+    fns = {}
+    for name in ("imbalance", "balanced_k_means_with_initial_partition", "balanced_k_means_iter", "assign_and_balance",
+                 "relax_bounds", "best_values", "erosion", "max_distance", "partition"):
+        b = fn_body(km, name)
+        if b is None:
+            raise Fail("k_means.rs: fn %s not found" % name)
+        fns[name] = _norm(b)
+    gfn = {}
+    for name in ("from_points", "center", "contains", "distance_to_point"):
+        b = fn_body(geo, name)
+        if b is None:
+            raise Fail("geometry.rs: fn %s not found" % name)
+        gfn[name] = _norm(b)
+    # `fn center` occurs twice in geometry.rs (BoundingBox::center first); the free function is the last one
+    i = geo.rfind("fn center<const D: usize>(points: &[PointND<D>])")
+    if i < 0:
+        raise Fail("geometry.rs: pub(crate) fn center(points) not found")
+    gcenter = _norm(fn_body(geo[i:], "center"))
+
+    # ---- literals (they flow into the binary64 instance of the model)
+    bv = fns["best_values"]
+    _need(bv, "let mut best_value = std::f64::MAX;", "best_value starts at f64::MAX")
+    _need(bv, "let mut snd_best_value = std::f64::MAX;", "snd_best_value starts at f64::MAX")
+    init = fns["balanced_k_means_with_initial_partition"]
+    _need(init, "points.par_iter().map(|_| std::f64::MAX).collect()", "ubs start at f64::MAX")
+    _need(init, "points.par_iter().map(|_| 0.).collect()", "lbs start at 0.")
+    _need(init, "centers.par_iter().map(|_| 1.).collect()", "influences start at 1.")
+    _need(gfn["from_points"], "PointND::<D>::from_element(std::f64::MAX), PointND::<D>::from_element(std::f64::MIN),",
+          "bounding box fold starts at (MAX, MIN)")
+    fmax = float.fromhex("0x1.fffffffffffffp+1023")
+    out += "Definition km_fmax_bits : N := %d%%N.\n" % _bits(fmax)
+    out += "Definition km_fmin_bits : N := %d%%N.\n" % _bits(-fmax)
+    m = re.search(r"let eps = ([0-9.]+) \* std::f64::EPSILON;", gfn["contains"])
+    if not m:
+        raise Fail("geometry.rs contains: `let eps = <literal> * std::f64::EPSILON` not found")
+    out += "Definition km_eps_bits : N := %d%%N.\n" % _bits(float(m.group(1)) * 2.0 ** -52)
+    m = re.search(r"let max_diff = ([0-9.]+) \* \*influence;", fns["assign_and_balance"])
+    if not m:
+        raise Fail("assign_and_balance: `let max_diff = <literal> * *influence` not found")
+    out += "Definition km_step_bits : N := %d%%N.\n" % _bits(float(m.group(1)))
+
+    # ---- operators and guard shapes: true = as modelled
+    flags = []
+
+    def flag(name, val):
+        flags.append(name)
+        return "Definition %s : bool := %s.\n" % (name, coq_bool(val))
+
+    ab = fns["assign_and_balance"]
+    out += flag("km_lb_lt_ub", _op(ab, r"if lb (<=|<|>=|>) ub \{", "if lb < ub") == "<")
+    out += flag("km_best_strict", _op(bv, r"if effective_distance (<=|<|>=|>) best_value \{ assignment = Some\(\*id\); "
+                r"snd_best_value = best_value; best_value = effective_distance; \}", "best update") == "<")
+    out += flag("km_snd_strict", _op(bv, r"else if effective_distance (<=|<|>=|>) snd_best_value \{ snd_best_value = effective_distance; \}",
+                "second best update") == "<")
+    out += flag("km_early_break", _op(bv, r"if \*distance_to_mbr (<=|<|>=|>) snd_best_value && settings\.mbr_early_break \{ break; \}",
+                "early break") == ">")
+    out += flag("km_effective_distance", "let effective_distance = (center - point).norm() * influence;" in bv)
+    out += flag("km_best_result", bv.rstrip(" }").endswith("(snd_best_value, best_value, assignment)"))
+    out += flag("km_tol_strict", _op(ab, r"if imbalance\(&new_weights\) (<=|<|>=|>) settings\.imbalance_tol \{ return; \}",
+                "imbalance test") == "<")
+    out += flag("km_balance_loop", "for _ in 0..settings.max_balance_iter {" in ab)
+    out += flag("km_target_weight", "let target_weight = weights.par_iter().sum::<f64>() / (centers.len() as f64);" in ab)
+    out += flag("km_influence_update", _norm(
+        "let ratio = target_weight / weight; let max_diff = 0.05 * *influence; "
+        "let new_influence = *influence / ratio.sqrt(); "
+        "if (*influence - new_influence).abs() < max_diff { *influence = new_influence; } "
+        "else if new_influence > *influence { *influence += max_diff; } else { *influence -= max_diff; }").replace("0.05", m.group(1)) in ab)
+    out += flag("km_mbr_sort", "par_sort_by(|(_, d1), (_, d2)| d1.partial_cmp(d2).unwrap_or(Ordering::Equal))" in ab
+                and "obb.distance_to_point(center) * influence" in ab)
+    out += flag("km_write", "if let Some(new_assignment) = new_assignment {" in ab
+                and "std::ptr::write(ptr.add(*idx), new_assignment);" in ab and "*lb = new_lb; *ub = new_ub;" in ab)
+    it = fns["balanced_k_means_iter"]
+    keep = "if points.is_empty() { return *old_center; } geometry::center(&points)"
+    out += flag("km_keep_empty_center", keep in ab and keep in it)
+    mstop = re.search(r"if !\(\*delta_max (<=|<|>=|>) settings\.delta_threshold \|\| current_iter == 0\) \{ relax_bounds\(", it)
+    if not mstop:
+        raise Fail("balanced_k_means_iter: the stop test `!(*delta_max < settings.delta_threshold || current_iter == 0)` not found")
+    out += flag("km_stop_test", mstop.group(1) == "<" and "current_iter - 1," in it)
+    out += flag("km_delta_max", ".max_by(|d1, d2| d1.partial_cmp(d2).unwrap_or(Ordering::Equal)) .unwrap();" in it
+                and ".map(|(c1, c2)| (c1 - c2).norm())" in it)
+    rb = fns["relax_bounds"]
+    out += flag("km_relax_bounds", "*ub += distance * influence;" in rb and "*lb -= max_distance_influence_ratio;" in rb
+                and ".map(|(distance, influence)| distance * influence)" in rb and ".unwrap_or(0.);" in rb)
+    out += flag("km_imbalance", "(Some(min), Some(max)) => max - min, _ => 0.," in fns["imbalance"])
+    out += flag("km_erosion", "2. / (1. + (-distance_moved / average_cluster_diameter).min(0.).exp()) - 1." in fns["erosion"]
+                and "*influence = influence.log(10.) * (1. - erosion(*distance, average_diameters)).exp()" in it)
+    out += flag("km_unsound_panic", "if current_num_parts != expected_num_parts { panic!(" in init
+                and ".iter() .cloned() .unique() .collect::<Vec<_>>();" in init)
+    pt = fns["partition"]
+    out += flag("km_part_count", "let num_partitions = 1 + *part_ids.par_iter().max().unwrap_or(&0); if num_partitions < 2 { return Ok(()); }" in pt)
+    # the `hilbert` setting is copied into the settings and never read
+    nc = re.sub(r"//[^\n]*", "", km)
+    out += flag("km_hilbert_unused", "settings.hilbert" not in nc and nc.count(".hilbert") == 1 and "hilbert: self.hilbert," in nc)
+    out += flag("km_geometry_center", "assert!(!points.is_empty()); let total = points.len() as f64; "
+                "points.par_iter().sum::<PointND<D>>() / total" in gcenter)
+    out += flag("km_bbox_fold", "if *val < *min { *min = *val; } if *max < *val { *max = *val; }" in gfn["from_points"]
+                and ".map(|(left, right)| left.min(*right))" in gfn["from_points"]
+                and ".map(|(left, right)| left.max(*right))" in gfn["from_points"])
+    out += flag("km_bbox_contains", ".all(|((min, max), point)| *point < *max + eps && *point > *min - eps)" in gfn["contains"])
+    dp = gfn["distance_to_point"]
+    out += flag("km_bbox_distance", "if point > max { *max } else if point < min { *min } else { *point }" in dp
+                and "if point > center { (max - point).abs() } else { (min - point).abs() }" in dp
+                and ".max_by(|a, b| a.partial_cmp(b).unwrap()) .unwrap()" in dp and "clamped.norm()" in dp)
+    out += flag("km_obb", "let obb_to_aabb = aabb_to_obb.try_inverse().unwrap();" in _norm(geo)
+                and "let mapped = points.par_iter().map(|p| obb_to_aabb * p); let aabb = BoundingBox::from_points(mapped)?;" in _norm(geo)
+                and "self.aabb.distance_to_point(&(self.obb_to_aabb * point))" in _norm(geo)
+                and "let obb = OrientedBoundingBox::from_points(points).unwrap();" in ab)
+    out += "Definition km_source_shape : list bool :=\n  [%s].\n" % "; ".join(flags)
+    return out
+
+
+GENERATORS = {"KMeansGen.v": gen_kmeans}
+
 PROP = dict(
     bin="c02",
     run_targets=["Run/RunC02.vo", "Run/RunKM.vo"],
